@@ -4,7 +4,7 @@ import sqlcheck, sqlloop, sqlprop, vlib
 import typing_sub                      # X04 "Typing" sub-model (checks/typing_sub.py)
 LEVEL = "model_checking"
 CFGS = [sqlprop.cfg("mem1"), sqlprop.cfg("mem3", batches=3), sqlprop.cfg("pq_2f_rg2", layout="parquet", files=2, rg=2)]
-FAMS = ["general", "agg", "cjoins", "setop", "cte", "order", "subq", "values", "gsets"]
+FAMS = ["general", "agg", "cjoins", "setop", "cte", "order", "subq", "values", "gsets", "unionjoin"]
 
 
 def judge(ctx, cases, outs, name):
